@@ -79,25 +79,21 @@ def run_command(command_func, config_file, server_names, user_specified=None):
             print(f"\nError in command: {e}")
         finally:
             should_log = not clean_exit
-            for i, (cm, _) in enumerate(list(context_managers)):
+            # Leave the contexts in THIS task, innermost first: anyio task groups
+            # and cancel scopes must be exited by the task that entered them, in
+            # reverse order.  Handing __aexit__ to a new task made anyio cancel this
+            # task instead, which aborted the client's shielded shutdown: servers
+            # were left running (or unreaped) with their pipes open.  StdioClient
+            # bounds its own shutdown (terminate, 1 s, kill, 1 s).
+            total = len(context_managers)
+            for i, (cm, _) in reversed(list(enumerate(context_managers))):
                 try:
-                    close_task = asyncio.create_task(cm.__aexit__(None, None, None))
-                    try:
-                        await asyncio.wait_for(close_task, timeout=2.0)
-                    except asyncio.TimeoutError:
-                        if should_log:
-                            print(
-                                f"Connection cleanup {i + 1}/{len(context_managers)} timed out"
-                            )
-                    except (asyncio.CancelledError, RuntimeError):
-                        pass
+                    await cm.__aexit__(None, None, None)
+                except (asyncio.CancelledError, RuntimeError):
+                    pass
                 except Exception as e:
-                    if should_log and not isinstance(
-                        e, (asyncio.CancelledError, RuntimeError)
-                    ):
-                        print(
-                            f"Error during server shutdown {i + 1}/{len(context_managers)}: {e}"
-                        )
+                    if should_log:
+                        print(f"Error during server shutdown {i + 1}/{total}: {e}")
 
     os.system("cls" if os.name == "nt" else "clear")  # nosec B605 - hardcoded safe commands
 
